@@ -18,8 +18,13 @@ class _QT(ast.NodeTransformer):
         f = node.func
         if isinstance(f, ast.Attribute):
             if isinstance(f.value, ast.Attribute) and f.value.attr == "frame_buffer" and f.attr in ("put", "get", "full", "empty", "qsize", "put_nowait", "get_nowait"):
+                kw = {k.arg for k in node.keywords}
+                if f.attr == "get" and ("timeout" in kw or len(node.args) >= 2):  # get(timeout=...): returns an item or raises queue.Empty once the wait is over
+                    return ast.Yield(value=ast.Tuple(elts=[ast.Constant("get_timeout")], ctx=ast.Load()))
+                if f.attr == "put" and ("timeout" in kw or len(node.args) >= 3):
+                    return ast.Yield(value=ast.Tuple(elts=[ast.Constant("put_timeout")] + node.args[:1], ctx=ast.Load()))
                 return ast.Yield(value=ast.Tuple(elts=[ast.Constant(f.attr)] + node.args, ctx=ast.Load()))
-            if isinstance(f.value, ast.Attribute) and f.value.attr == "pipeline" and f.attr in ("start", "join"):
+            if isinstance(f.value, ast.Attribute) and f.value.attr == "pipeline" and f.attr in ("start", "join", "is_alive"):
                 return ast.Yield(value=ast.Tuple(elts=[ast.Constant(f.attr)], ctx=ast.Load()))
         return node
 
@@ -173,7 +178,8 @@ def simulate(kind: str, start: int, end: int, Q: int, B: int, fail: int, sched: 
                 return "ok", out, delivered, pstate
             return ("hang:consumer-blocked" if not cdone else "hang:producer-blocked-after-consumer-finished"), out, delivered, pstate
         if c_en and p_en:
-            pick_c = sched[si] if si < len(sched) else True
+            # beyond the symbolic schedule the default is fair to a polling consumer: a poll on an empty queue lets the producer run
+            pick_c = sched[si] if si < len(sched) else not (creq[0] in ("get_timeout", "get_nowait", "empty", "qsize", "full", "is_alive") and not buf)
             si += 1
         else:
             pick_c = c_en
@@ -189,7 +195,9 @@ def simulate(kind: str, start: int, end: int, Q: int, B: int, fail: int, sched: 
             elif k == "get":
                 csend = buf.pop(0)
                 delivered.append(csend)
-            elif k == "get_nowait":
+            elif k == "is_alive":
+                csend = pstate == "running"
+            elif k in ("get_nowait", "get_timeout"):  # a timed get that is scheduled while the queue is empty has waited in vain: queue.Empty
                 if buf:
                     csend = buf.pop(0)
                     delivered.append(csend)
